@@ -226,6 +226,9 @@ class Interp(object):
             return IntV(bits, lin + M, 'u')
         if not lin.t:
             return IntV(bits, Lin.const(lin.c % M), 'u')
+        if lo >= -(M >> 1) and hi < (M >> 1):
+            # the two's-complement pattern of a value in the signed range: exact in the signed view
+            return IntV(bits, lin, 's')
         st.ev('maywrap', inst, what, lin, bits)
         a = ('mod', lin, bits)
         if a not in st.rng:
@@ -713,6 +716,9 @@ class Interp(object):
                 links = st.flags.setdefault('strlinks', [])
                 if not any(x[0] == a for x in links):
                     st.flags['strlinks'] = links + [(a, off, L)]
+                    if o.attrs.get('cstr_weak'):
+                        # terminated storage that may also hold NULs before the terminator
+                        st.flags['weaklinks'] = tuple(st.flags.get('weaklinks', ())) + ((a, off, L),)
                 self.apply_links(st)
             return IntV(b, Lin.atom(a), 'u')
         return self.fresh_for_type(st, ty, 'ld')
@@ -735,7 +741,8 @@ class Interp(object):
                         return False
             else:
                 if st.is_ge0(d - 1) is True:
-                    st.rng[a] = (max(lo, 1), hi)
+                    if (a, off, L) not in st.flags.get('weaklinks', ()):
+                        st.rng[a] = (max(lo, 1), hi)
                 elif st.is_eq0(d) is True:
                     st.rng[a] = (0, 0)
         return True
@@ -1207,6 +1214,18 @@ class Interp(object):
                         if v2.off != nv.off:
                             pguards.append((v2.obj, v2.off))
                 for gi, T in enumerate(pguards):
+                    # lower bounds: cursor >= T, cursor >= T - 1 (downward walks may stop one before the start)
+                    for dlt in (0, 1):
+                        rel = 'pl%d' % dlt + re.sub(r'#\d+', '#', repr(T[1]))
+                        k3 = key0 + (name, rel)
+                        if k3 in self.inv_disabled:
+                            continue
+                        if st.is_ge0(nv.off - T[1] + dlt) is True:
+                            st.assume_ge0(woff - T[1] + dlt)
+                            used.append((name, rel, PtrV(nv.obj, T[1] - dlt)))
+                        else:
+                            self.inv_disabled.add(k3)
+                for gi, T in enumerate(pguards):
                     k2 = key0 + (name, 'pg' + re.sub(r'#\d+', '#', repr(T[1])))
                     if k2 in self.inv_disabled:
                         continue
@@ -1321,7 +1340,7 @@ class Interp(object):
                     d = (nv.lin - ev.lin) if rel == 'ge' else (ev.lin - nv.lin)
                     ok = nv.kind == ev.kind and st.is_ge0(d) is True
                 elif isinstance(nv, PtrV) and isinstance(ev, PtrV) and nv.obj == ev.obj:
-                    d = (nv.off - ev.off) if rel == 'ge' else (ev.off - nv.off)
+                    d = (nv.off - ev.off) if (rel == 'ge' or str(rel).startswith('pl')) else (ev.off - nv.off)
                     ok = st.is_ge0(d) is True
                 else:
                     ok = False
